@@ -4,7 +4,7 @@ PROPS = {
     "C11": dict(
         engines=["core"], props_file="Props/C11.v", checkers=["Oracles/CoreC11.v"],
         checker_fns={"core": "Oracles.CoreC11:c11_check_all"},
-        variants=["maxapps", "preemptdeep", "gang", "", "reload", "gangdeep"],
+        variants=["maxapps", "maxappsdeep", "preemptdeep", "gang", "", "reload", "gangdeep"],
         coq_scan=["Core/MaxApps.v", "Core/MaxAppsProofs.v", "Oracles/CoreC11.v", "Props/C11.v", "Core/Obs.v", "Base"],
         level="proof",
         assumptions=[
